@@ -28,9 +28,9 @@ fn escape_char(c: char) -> Value {
 /// must be encoded using Excel's `_xXXXX_` convention.
 fn needs_xlsx_escape(c: char) -> bool {
     let cp = c as u32;
-    // XML 1.0 forbidden: 0x00-0x08, 0x0B, 0x0C, 0x0E-0x1F
+    // XML 1.0 forbidden: 0x00-0x08, 0x0B, 0x0C, 0x0E-0x1F and the non-characters 0xFFFE, 0xFFFF
     // (0x09=TAB, 0x0A=LF, 0x0D=CR are valid in XML and handled above)
-    matches!(cp, 0x00..=0x08 | 0x0B | 0x0C | 0x0E..=0x1F)
+    matches!(cp, 0x00..=0x08 | 0x0B | 0x0C | 0x0E..=0x1F | 0xFFFE | 0xFFFF)
 }
 
 /// Returns true if `bytes` starts with `_xHHHH_` (7 bytes, 4 hex digits).
